@@ -15,36 +15,6 @@ Fixpoint sortedb (l : list str) : bool :=
   | _ => true
   end.
 
-Lemma str_ltb_irrefl a : str_ltb a a = false.
-Proof.
-  induction a as [|x a IH]; [reflexivity|]. cbn. rewrite N.ltb_irrefl, N.eqb_refl, IH. reflexivity.
-Qed.
-
-Lemma str_ltb_trans a b c : str_ltb a b = true -> str_ltb b c = true -> str_ltb a c = true.
-Proof.
-  revert b c; induction a as [|x a IH]; intros [|y b] [|z c]; cbn; try discriminate; try reflexivity.
-  intros H1 H2.
-  apply orb_true_iff in H1. apply orb_true_iff in H2. apply orb_true_iff.
-  destruct H1 as [H1|H1], H2 as [H2|H2].
-  - left. apply N.ltb_lt in H1, H2. apply N.ltb_lt. lia.
-  - apply andb_true_iff in H2 as [E _]. apply N.eqb_eq in E. subst. now left.
-  - apply andb_true_iff in H1 as [E _]. apply N.eqb_eq in E. subst. now left.
-  - apply andb_true_iff in H1 as [E1 H1]. apply andb_true_iff in H2 as [E2 H2].
-    apply N.eqb_eq in E1, E2. subst. right. rewrite N.eqb_refl. cbn. eapply IH; eassumption.
-Qed.
-
-Lemma str_trichotomy a b :
-  str_ltb a b = false -> str_eqb a b = false -> str_ltb b a = true.
-Proof.
-  revert b; induction a as [|x a IH]; intros [|y b]; cbn; try discriminate; try reflexivity.
-  intros H1 H2. apply orb_false_iff in H1 as [L H1].
-  apply N.ltb_ge in L.
-  destruct (x =? y) eqn:E.
-  - apply N.eqb_eq in E. subst y. cbn in H1, H2. rewrite N.eqb_refl. cbn.
-    rewrite (IH b H1 H2). apply orb_true_r.
-  - apply N.eqb_neq in E. assert (Hlt : y < x) by lia. apply N.ltb_lt in Hlt. now rewrite Hlt.
-Qed.
-
 Lemma insert_str_in x y l : In y (insert_str x l) <-> y = x \/ In y l.
 Proof.
   induction l as [|z l IH]; cbn.
